@@ -115,6 +115,17 @@ def replay_case(arg):
                 prior = pints.ComposedLogPrior(*[pints.UniformLogPrior(0.5 * p, 1.5 * p) for p in params])
                 df = chi.PriorPredictiveModel(pm, prior).sample(times_in, n_samples=ns, seed=int(rng.integers(100)),
                                                                 include_regimen=rec['regimen'])
+            elif kind == 'posteriorpop':
+                # the posterior holds the POPULATION parameters (chain, draw); every dimension is pooled, so the coded
+                # population values reach the mechanistic model unchanged and show which row was drawn; one variable of the
+                # dataset carries another name (param_map)
+                ppm0 = chi.PopulationPredictiveModel(pm, chi.ComposedPopulationModel([chi.PooledModel(n_dim=len(names))]))
+                pnames = ppm0.get_parameter_names()
+                post = coded_posterior(pnames, ['a'])
+                post = post.isel(individual=0, drop=True).rename({pnames[0]: 'renamed in the dataset'})
+                df = chi.PosteriorPredictiveModel(ppm0, post, param_map={pnames[0]: 'renamed in the dataset'}).sample(
+                    times_in, n_samples=ns, seed=int(rng.integers(100)), include_regimen=rec['regimen'])
+                who = 'a'
             else:
                 ids = ['a', 'b', 'c']
                 post = coded_posterior(names, ids)
@@ -147,7 +158,7 @@ def replay_case(arg):
         else:
             fail('LabelsOK', 'labels', dict(got=got[:8], expected=exp[:8]))
     vals = df[df['Observable'].isin(obs_names)]['Value'].to_numpy(dtype=float)
-    if len(vals) != rec['nrows'] or not np.all(np.isfinite(vals) | (kind in ('posterior', 'pam'))):
+    if len(vals) != rec['nrows'] or not np.all(np.isfinite(vals) | (kind in ('posterior', 'pam', 'posteriorpop'))):
         fail('LabelsOK', 'values', dict(n=len(vals), expected=rec['nrows']))
     for (i_, o_), g in pd.DataFrame(got, columns=['i', 't', 'o']).groupby(['i', 'o']):
         if list(g['t']) != sorted(g['t']):
@@ -183,8 +194,9 @@ def replay_case(arg):
             if len(sims) != 1 or not np.array_equal(sims[0][1], np.array(params[:nm])) or \
                     not np.array_equal(sims[0][2], np.sort(times)):
                 fail('Provenance', 'given_vector', dict(n=len(sims)))
-        elif kind in ('posterior', 'pam'):
-            if len(sims) != ns:
+        elif kind in ('posterior', 'pam', 'posteriorpop'):
+            # (over a population model every sample ID simulates n_samples individuals and keeps the first)
+            if len(sims) != (ns * ns if kind == 'posteriorpop' else ns):
                 fail('JointRow', 'n_simulations', dict(got=len(sims), expected=ns))
             for ev in sims:
                 codes = [int(round(v)) for v in ev[1]]
